@@ -348,6 +348,8 @@ def run(ctx):
                         nonnull = check_result(ctx, text, res[0], res[1], mon, case)
                         ctx.case((text, 'postings'), nonnull > 0)
     ledger_columns(ctx, mon)
+    if ctx.shard % 4 == 1 or not ctx.quick:
+        subquery_histories(ctx, mon)
 
 
 run.last = 0
@@ -412,6 +414,43 @@ def ledger_columns(ctx, mon):
                     ctx.count('obs.cells_checked', sum(len(r) for r in res[1]))
 
 
+def subquery_histories(ctx, mon):
+    """Histories of statements over sub-queries on one connection: the names and datatypes a sub-query exposes belong to that
+    statement only. A later statement that uses a name some EARLIER sub-query defined must either be rejected or be type-sound."""
+    rng = ctx.rng('subq-hist')
+    led = ledgers.gen_ledger(rng, ntxn=6)
+    conn = engine.connection(ledger=led.loaded)
+    vt, rows = typed_table(rng, nrows=10)
+    conn.tables['v'] = vt
+    types = ['str', 'int', 'decimal', 'date', 'bool', 'amount', 'inventory', 'set']
+    beanquery = engine.bq()
+    for n in range(ctx.pick(40, 600)):
+        if ctx.out_of_time():
+            return
+        ta, tb, tc = rng.choice(types), rng.choice(types), rng.choice(types)
+        name = rng.choice(['x', 'y', 'n', 'val'])
+        other = 'q' + name
+        first = f'SELECT {name}, zz FROM (SELECT c_{ta} AS {name}, c_{tc} AS zz FROM #v)'
+        stale = rng.choice([
+            f'SELECT {name} FROM (SELECT c_{tb} AS {other} FROM #v)',
+            f'SELECT zz, {other} FROM (SELECT c_{tb} AS {other} FROM #v)',
+            f'SELECT * FROM (SELECT d_{tb} AS {other} FROM #v)',
+            f'SELECT {name} FROM #',
+            f'SELECT {other} FROM (SELECT c_{tb} AS {other}, c_{ta} AS second FROM #v) WHERE {name} IS NOT NULL',
+        ])
+        for text, must_have in ((first, None), (stale, None)):
+            case = {'statement': text, 'history': [first, stale]}
+            res = execute(ctx, conn, text, mon, case, prefix='c04.subquery_history')
+            ctx.case(('subq-hist', text, n), True)
+            ctx.count('obs.subquery_history_statements')
+            if res is not None:
+                check_result(ctx, text, res[0], res[1], mon, case, prefix='c04.subquery_history')
+                if text is stale and text.startswith('SELECT *'):
+                    names = [d.name for d in res[0]]
+                    if names != [other]:
+                        ctx.violation('c04.subquery_history.wildcard_columns', f'{text} after {first}: columns {names}, the sub-query exposes [{other!r}]', case)
+
+
 def replay(ctx, case):
     mon = monitors.install()
     print('replay: statement', case and case.get('statement'))
@@ -428,6 +467,8 @@ def finalize(merged):
         reasons.append(f"registry sweep incomplete: {len(ex) + len(nc)}/{c.get('registry.instantiations')}")
     if c.get('obs.node_evaluations', 0) == 0:
         reasons.append('node evaluation hook never fired')
+    if c.get('obs.subquery_history_statements', 0) == 0:
+        reasons.append('no sub-query history executed')
     if c.get('obs.ledger_statements', 0) == 0:
         reasons.append('no ledger column statement executed')
     return reasons
